@@ -35,6 +35,9 @@ def main(spec_path, out_path):
 		if os.environ.get("VERIF_DEFAULT_DTYPE"):
 			rec.count("units_under_default_dtype_" + os.environ[
 				"VERIF_DEFAULT_DTYPE"])
+		if os.environ.get("MALLOC_PERTURB_"):
+			rec.count("units_under_malloc_perturb_" + os.environ[
+				"MALLOC_PERTURB_"])
 		try:
 			if unit.get("cls") == "__replay__":
 				case = unit["case"]
